@@ -284,7 +284,7 @@ func c18HostTok(name string) string {
 // renderedBinds: the auth-proxy frontend of the configuration file: bind port -> backend named after
 // the port (must exist, with its server on that port) -> use_backend target
 func (e *c18Env) renderedBinds(sections map[string][]string) string {
-	front, ok := sections["frontend _front__auth"]
+	front, ok := sections["frontend "+e.hconfig.Frontend().AuthProxy.Name]
 	if !ok {
 		return "-"
 	}
@@ -341,10 +341,50 @@ func (e *c18Env) renderedBinds(sections map[string][]string) string {
 	return strings.Join(out, ",")
 }
 
-func c18HistRun(h *c18Hist, pad bool) (string, error) {
+// records: the model records (BackendPath.AuthExternal, HostPath.AuthExt) of the given ingresses —
+// decides the rendered rules; the fingerprint of an outcome used while sampling iteration orders
+func (e *c18Env) records(ings []c18Ing) (string, error) {
+	var out []string
+	for _, g := range ings {
+		hostname, path := c18Host(g.host), c18Paths[g.path]
+		host := e.hconfig.Hosts().FindHost(hostname)
+		if host == nil {
+			return "", fmt.Errorf("host %s missing", hostname)
+		}
+		for _, hp := range host.Paths {
+			if hp.Path() != path {
+				continue
+			}
+			backend := e.hconfig.Backends().FindBackend(hp.Backend.Namespace, hp.Backend.Name, hp.Backend.Port)
+			if backend == nil {
+				return "", fmt.Errorf("backend %s missing", hp.Backend.ID)
+			}
+			bp := backend.FindBackendPath(hp.Link)
+			if bp == nil {
+				return "", fmt.Errorf("backend path of %s%s missing", hostname, path)
+			}
+			frec := "nil"
+			if hp.AuthExt != nil {
+				frec = c18Rec(hp.AuthExt)
+			}
+			out = append(out, "B="+c18Rec(&bp.AuthExternal)+";F="+frec)
+		}
+	}
+	return strings.Join(out, "|"), nil
+}
+
+// commit: in place of instance.HAProxyUpdate when nothing is rendered (sampling runs)
+func (e *c18Env) commit() {
+	e.hconfig.SyncConfig()
+	e.hconfig.Shrink()
+	e.hconfig.Commit()
+}
+
+// c18HistRun: fingerprint (records, binds, dirty sets) and, unless cheap, the full output
+func c18HistRun(h *c18Hist, pad, cheap bool) (fp string, res string, err error) {
 	states, err := h.evolve()
 	if err != nil {
-		return "", err
+		return "", "", err
 	}
 	pads := 0
 	if pad {
@@ -352,9 +392,19 @@ func c18HistRun(h *c18Hist, pad bool) (string, error) {
 	}
 	e, err := c18NewEnv(&h.c18Scenario, pads)
 	if err != nil {
-		return "", err
+		return "", "", err
 	}
 	defer e.close()
+	var sections map[string][]string
+	update := func() error {
+		if cheap {
+			e.commit()
+			return nil
+		}
+		var err error
+		sections, err = e.render()
+		return err
+	}
 
 	// ---- phase 1: full sync + update (commit)
 	objs := map[int]*networking.Ingress{}
@@ -371,16 +421,15 @@ func c18HistRun(h *c18Hist, pad bool) (string, error) {
 	}
 	conv := ingress.NewIngressConverter(e.opts, e.hconfig, &convtypes.ChangedObjects{GlobalConfigMapDataNew: e.global})
 	if !conv.NeedFullSync() {
-		return "", fmt.Errorf("first sync is not a full one")
+		return "", "", fmt.Errorf("first sync is not a full one")
 	}
 	conv.Sync(true)
 	e.debugLog()
-	sections, err := e.render()
-	if err != nil {
-		return "", err
+	if err := update(); err != nil {
+		return "", "", err
 	}
 	if e.hconfig.Backends().Changed() || len(e.hconfig.Hosts().ItemsAdd()) > 0 {
-		return "", fmt.Errorf("not committed after the update")
+		return "", "", fmt.Errorf("not committed after the update")
 	}
 
 	// ---- phase 2: partial syncs
@@ -432,13 +481,13 @@ func c18HistRun(h *c18Hist, pad bool) (string, error) {
 		}
 		conv := ingress.NewIngressConverter(e.opts, e.hconfig, ch)
 		if conv.NeedFullSync() {
-			return "", fmt.Errorf("a partial sync was expected")
+			return "", "", fmt.Errorf("a partial sync was expected")
 		}
 		conv.Sync(false)
 		e.debugLog()
 		dirty = append(dirty, e.dirty())
-		if sections, err = e.render(); err != nil {
-			return "", err
+		if err := update(); err != nil {
+			return "", "", err
 		}
 	}
 
@@ -450,34 +499,42 @@ func c18HistRun(h *c18Hist, pad bool) (string, error) {
 		}
 	}
 	bs := e.binds()
+	recs, err := e.records(live)
+	if err != nil {
+		return "", "", err
+	}
+	fp = recs + "||" + bs + "||" + strings.Join(dirty, "/")
+	if cheap {
+		return fp, "", nil
+	}
 	ps := "-"
 	if len(live) > 0 {
 		out, err := e.observe(sections, live)
 		if err != nil {
-			return "", err
+			return "", "", err
 		}
 		ps = strings.Join(out, "|")
 	}
-	res := ps + "||" + bs + "||" + strings.Join(dirty, "/")
+	res = ps + "||" + bs + "||" + strings.Join(dirty, "/")
 	if rb := e.renderedBinds(sections); rb != bs {
 		res += "||cfg=" + rb
 	}
-	return res, nil
+	return fp, res, nil
 }
 
-func c18HistOnce(h *c18Hist, pad bool) (out string) {
+func c18HistOnce(h *c18Hist, pad, cheap bool) (fp, out string) {
 	defer func() {
 		if r := recover(); r != nil {
-			out = "PANIC"
+			fp, out = "PANIC", "PANIC"
 			fmt.Fprintf(os.Stderr, "C18 panic on %s: %v\n", h.args(), r)
 		}
 	}()
-	res, err := c18HistRun(h, pad)
+	fp, res, err := c18HistRun(h, pad, cheap)
 	if err != nil {
 		fmt.Fprintf(os.Stderr, "C18 harness error on %s: %v\n", h.args(), err)
-		return "ERROR"
+		return "ERROR", "ERROR"
 	}
-	return res
+	return fp, res
 }
 
 // tracker link keys of one ingress (sampling heuristic only, see c18HistSensitive): its host, its
@@ -572,30 +629,44 @@ func c18HistSensitive(h *c18Hist) bool {
 	return false
 }
 
+// c18HistExec: the canonical implementation output of a history.  An order-insensitive one is run
+// once.  An order-sensitive one is first sampled WITHOUT rendering (padded as in the one-batch mode,
+// SyncConfig/Shrink/Commit in place of HAProxyUpdate) until 60 runs in a row brought no new
+// fingerprint (records + binds + dirty sets, which decide the rendered rules); then complete runs are
+// repeated until one shows the smallest fingerprint, and that one is reported.
 func c18HistExec(h *c18Hist) (out string, distinct int) {
 	if !c18HistSensitive(h) {
-		return c18HistOnce(h, false), 1
+		_, out = c18HistOnce(h, false, false)
+		return out, 1
 	}
 	seen := map[string]int{}
 	quiet := 0
-	limit := 30
+	limit := 60
 	if c18Sample > 0 {
 		limit = c18Sample
 	}
+	best := ""
 	for n := 0; n < 400 && quiet < limit; n++ {
-		o := c18HistOnce(h, true)
-		if seen[o] > 0 {
-			seen[o]++
+		fp, _ := c18HistOnce(h, true, true)
+		if seen[fp] > 0 {
+			seen[fp]++
 			quiet++
 			continue
 		}
-		seen[o] = 1
+		seen[fp] = 1
 		quiet = 0
-		if out == "" || o < out {
-			out = o
+		if best == "" || fp < best {
+			best = fp
 		}
 	}
-	return out, len(seen)
+	for n := 0; n < 200; n++ {
+		fp, o := c18HistOnce(h, true, false)
+		if fp <= best {
+			return o, len(seen)
+		}
+	}
+	fmt.Fprintf(os.Stderr, "C18 hist %s: the sampled outcome did not show up again\n", h.args())
+	return "ERROR", len(seen)
 }
 
 func c18HistEmit(c *ctx, h *c18Hist, out string, distinct int) {
@@ -687,9 +758,9 @@ var c18HistCorpus = []string{
 	"x0l0r1 0.0.0.b.h1.b.-.- a:1.1.1.b.h2.b.-.-",
 	"x0l0r1 0.0.0.b.h1.-.-.- a:2.2.3.b.h2.-.-.-",
 	"x0l0r2 0.0.0.b.h1.b.-.-,1.1.1.b.h2.b.-.- a:2.2.3.b.hs.b.-.-",
-	"x0l0r1 0.0.0.e.h1.f.-.- a:1.1.1.b.h2.b.-.-",       // ... the untouched name is a frontend placed one
-	"x0l0r1 0.0.0.b.h1.b.-.- a:1.1.1.e.h2.f.-.-",       // ... the new one is
-	"x0l0r1 0.0.0.b.h1.b.-.- a:1.1.1.b.h2.b.-.-/d:1",   // then the holder goes away: still denied (not dirty)
+	"x0l0r1 0.0.0.e.h1.f.-.- a:1.1.1.b.h2.b.-.-",                          // ... the untouched name is a frontend placed one
+	"x0l0r1 0.0.0.b.h1.b.-.- a:1.1.1.e.h2.f.-.-",                          // ... the new one is
+	"x0l0r1 0.0.0.b.h1.b.-.- a:1.1.1.b.h2.b.-.-/d:1",                      // then the holder goes away: still denied (not dirty)
 	"x0l0r1 0.0.0.b.h1.b.-.- a:1.1.1.b.h2.b.-.-/d:1/u:2:1.1.1.b.h2.b.-.s", // ... until it is processed again
 	// the port of a deleted ingress is recycled by the clean-up of a later partial sync
 	"x0l0r1 0.0.0.b.h1.b.-.- d:1/a:1.1.1.b.h2.b.-.-",
@@ -733,11 +804,14 @@ func c18HistExhaustive(thorough bool) []*c18Hist {
 		res = append(res, h)
 	}
 	rngs := []string{"1", "2"}
+	// two targets on two backends in ONE full sync is order sensitive (which one gets the first port):
+	// such a state is reached deterministically by phase 1 = one target + `a:` of the second; the full
+	// sync variant is kept with single ops only (quick)
 	phases := [][]string{
-		{"0.0.0.e.h1.%s.-.-"},                        // one target
-		{"0.0.0.e.h1.%s.-.-", "1.1.1.e.h2.%s.-.-"},   // two targets, own hosts and backends
-		{"0.0.0.e.h1.%s.-.-", "1.1.1.e.hq.%s.-.-"},   // one target, two users
-		{"0.0.0.e.h1.%s.-.-", "0.1.0.e.h2.%s.-.-"},   // two targets on one host and backend
+		{"0.0.0.e.h1.%s.-.-"},                      // one target
+		{"0.0.0.e.h1.%s.-.-", "1.1.1.e.hq.%s.-.-"}, // one target, two users
+		{"0.0.0.e.h1.%s.-.-", "0.1.0.e.h2.%s.-.-"}, // two targets on one host and backend
+		{"0.0.0.e.h1.%s.-.-", "1.1.1.e.h2.%s.-.-"}, // two targets, own hosts and backends
 	}
 	plcs := []string{"b", "f"}
 	maxLen := 2
@@ -746,7 +820,11 @@ func c18HistExhaustive(thorough bool) []*c18Hist {
 	}
 	for _, rg := range rngs {
 		for _, plc := range plcs {
-			for _, ph := range phases {
+			for pi, ph := range phases {
+				limit := maxLen
+				if pi == 3 && !thorough {
+					limit = 1
+				}
 				var ings []string
 				for _, t := range ph {
 					ings = append(ings, fmt.Sprintf(t, plc))
@@ -777,7 +855,7 @@ func c18HistExhaustive(thorough bool) []*c18Hist {
 							}
 						}
 					}
-					if len(prefix) == maxLen {
+					if len(prefix) == limit {
 						return
 					}
 					for _, o := range alphabet {
@@ -877,7 +955,7 @@ func runC18Hist(c *ctx) {
 	hs := c18HistExhaustive(c.thorough())
 	c.stat("hist_exhaustive", len(hs))
 	r := gen.New(c.seed ^ 0x18b)
-	n := 700
+	n := 400
 	if c.thorough() {
 		n = 9000
 	}
